@@ -15,6 +15,9 @@ two inputs differing only there produce the same hash - a definite violation.  A
                   or KDF primitive - md5crypt, sha256crypt, sha512crypt, sunmd5, sha1crypt, scrypt, yescrypt - because there
                   the length is a value range; for the methods that walk the phrase in a loop (DES family, bcrypt, NT) loop
                   summarisation blurs the offsets upwards and the rule only confirms that the window is reached.
+  X-PHRASE-DIGEST the longest phrase-derived span (by byte provenance) that a digest / cipher contract receives covers the
+                  window: 511 bytes for the direct methods, 1022 for NT (UTF-16 copy in the scratch area), an 8-byte key block for
+                  the DES family.  This is what sees a clamp between the phrase and the digest when the phrase is first copied.
   X-SALT-SPAN     every salt character (derived from the random bytes) and every cost character (derived from count) of the
                   generated setting is among the read offsets of the setting.
   R-PHRASE-LIMIT  the one length limit in front of all methods is the documented CRYPT_MAX_PASSPHRASE_SIZE (512): phrases
@@ -29,6 +32,10 @@ TECHNIQUE = "abstract interpretation of the LLVM IR (XAI) with read-offset traci
 WINDOW = {"descrypt": 8, "bigcrypt": 128, "bcrypt": 72, "bcrypt_a": 72, "bcrypt_x": 72, "bcrypt_y": 72}
 SHARP = {"md5crypt", "sha256crypt", "sha512crypt", "sunmd5", "sha1crypt", "scrypt", "yescrypt"}
 MAXPHRASE = 511
+P_PHRASE = 32
+# longest phrase-derived input that a digest / cipher primitive must be able to receive in one call (bytes): the whole phrase
+# for the methods that pass it on directly, its UTF-16 expansion for NT, one 8-byte key block for the DES family
+EXPECT_DIGEST = {"nt": 2 * MAXPHRASE, "descrypt": 8, "bigcrypt": 8, "bsdicrypt": 8, "gost_yescrypt": MAXPHRASE}
 P_RBYTES, P_COUNT = 1, 8
 
 
@@ -47,6 +54,7 @@ def covered(ranges, lo, hi):
 def run(chk, tier):
     chk.explanation = __doc__
     chk.rule("X-PHRASE-SPAN", "every phrase offset inside the method's documented significant window may be read by the computation (an offset that is never read cannot influence the hash)")
+    chk.rule("X-PHRASE-DIGEST", "the digest / cipher primitives can receive a phrase-derived input as long as the significant window (the whole phrase; its UTF-16 form for NT; an 8-byte key block for the DES family)")
     chk.rule("X-SALT-SPAN", "every salt and cost character of a generated setting may be read by the computation (not merely echoed)")
     chk.rule("R-PHRASE-LIMIT", "do_crypt refuses phrases of CRYPT_MAX_PASSPHRASE_SIZE (512) bytes and more and passes the full length on otherwise")
     t = CG.run_traced(tier)
@@ -81,6 +89,15 @@ def run(chk, tier):
                      "lib/", {"cell": cid, "reads": pr, "digest_reads": [e for e in c.get("trace", []) if e.get("k") == "cread" and e.get("reg") == "phrase"][:6]})
         else:
             chk.ok("X-PHRASE-SPAN", cid, sample={"method": method, "window": w, "reads": pr, "sharp": method in SHARP})
+        # what the primitives receive: the longest phrase-derived span handed to a digest / cipher contract
+        want = EXPECT_DIGEST.get(method, MAXPHRASE if method in SHARP else None)
+        if want is not None:
+            spans = [e for e in c.get("trace", []) if e.get("k") == "cread" and (e.get("prov", 0) & P_PHRASE)]
+            got = max([int(e["len"][1]) for e in spans] or [0])
+            if got < want:
+                chk.fail("X-PHRASE-DIGEST", "%s|%d" % (method, got), "%s: the longest phrase-derived input a digest primitive can receive is %d bytes, the significant window needs %d (setting %s)" % (method, got, want, shown), "lib/", {"cell": cid, "spans": spans[:4]})
+            else:
+                chk.ok("X-PHRASE-DIGEST", cid, sample={"method": method, "longest": got, "needed": want})
         # setting
         provs = mt.get("provs")
         if provs is None or len(provs) != len(mt["pattern"]):
